@@ -26,6 +26,9 @@ type L2OracleHandler struct {
 	extendedCommitCodec connectcodec.ExtendedCommitCodec
 	veCodec             connectcodec.VoteExtensionCodec
 	voteAggregator      connectaggregator.VoteAggregator
+
+	// newVoteAggregator builds a vote aggregator with a cold currency pair cache.
+	newVoteAggregator func() connectaggregator.VoteAggregator
 }
 
 func NewL2OracleHandler(
@@ -33,9 +36,22 @@ func NewL2OracleHandler(
 	oracleKeeper types.OracleKeeper,
 	logger log.Logger,
 ) *L2OracleHandler {
+	newVoteAggregator := func() connectaggregator.VoteAggregator {
+		return connectaggregator.NewDefaultVoteAggregator(
+			logger,
+			voteweighted.MedianFromContext(
+				logger,
+				k.HostValidatorStore,
+				voteweighted.DefaultPowerThreshold,
+			),
+			currencypair.NewHashCurrencyPairStrategy(oracleKeeper),
+		)
+	}
+
 	return &L2OracleHandler{
-		Keeper:       k,
-		oracleKeeper: oracleKeeper,
+		Keeper:            k,
+		oracleKeeper:      oracleKeeper,
+		newVoteAggregator: newVoteAggregator,
 		extendedCommitCodec: connectcodec.NewCompressionExtendedCommitCodec(
 			connectcodec.NewDefaultExtendedCommitCodec(),
 			connectcodec.NewZStdCompressor(),
@@ -93,6 +109,12 @@ func (k L2OracleHandler) UpdateOracle(ctx context.Context, height uint64, extCom
 	if err != nil {
 		return err
 	}
+
+	// the currency pair strategy of the vote aggregator caches per block height in process
+	// memory, so the gas consumed here (and, under a tight gas limit, the outcome) would depend
+	// on what this process executed before; use an aggregator with a cold cache for every update.
+	k.voteAggregator = k.newVoteAggregator()
+
 	prices, err := k.voteAggregator.AggregateOracleVotes(sdkCtx, votes)
 	if err != nil {
 		return err
